@@ -6,8 +6,8 @@ import vlib
 META = {
     "property_id": "C07",
     "level": "proof",
-    "coq_targets": ["SetJudge.vo"],
-    "technique": "Coq refinement proof: the list-backed model of set.go refines a membership predicate for every element type with decidable equality, every operation sequence and every map iteration order; in-kernel correspondence of model, abstract set and the real Set[T] on generated op sequences with full membership probes",
+    "coq_targets": ["SetJudge.vo", "SetGenPrims.vo"],
+    "technique": "translator tie (set.go regenerated to Gallina every run, proved equal to the model) + Coq refinement proof: the list-backed model of set.go refines a membership predicate for every element type with decidable equality, every operation sequence and every map iteration order; in-kernel correspondence of model, abstract set and the real Set[T] on generated op sequences with full membership probes",
     "design_ref": "DESIGN.md §4 C07",
     "level_text": "Proof: SetProofs.v shows for every element type T with a boolean equality reflecting =, every argument list (repeats, absent, empty) and every operation sequence from the nil set that the model of set/set.go keeps a duplicate-free key list, that Has/HasAny/Slice/Add/AddSet/Remove/RemoveSet are exactly all-members / some-member / each-member-once / union / difference with changed-flags true iff membership changed, for every order in which Go may range over a map, and that the whole run refines the abstract set (Props/C07.v, closed under the global context). The model is tied to the current source by running the real Set[int|string|struct] on generated sequences and judging every observation inside Coq against both the model and the abstract set.",
     "level_note": "Trusted: Coq 8.16.1 kernel + vm_compute; the hand-written model's fidelity is checked (not proved) by the correspondence run; Go map semantics for comparable keys with reflexive == (no NaN keys: outside the quantifier); Go harness. No axioms.",
@@ -18,6 +18,7 @@ TRUSTED = [
     "hand-written model coq/theories/SetModel.v of set/set.go, tied by correspondence only",
     "Go map semantics for comparable keys whose == is reflexive",
     "Go harness harness/cmd/c07 (generator, element->index mapping, probes), Go 1.23 toolchain",
+    "translator harness/cmd/xlate_set (go/parser -> Gallina over the map primitives of SetGenPrims.v for Make/Add/AddSet/Remove/RemoveSet/Has/HasAny; Slice and the codec methods are tied by correspondence only); validated by the correspondence run",
 ]
 
 HEADER = ("From Coq Require Import ZArith List Bool.\nImport ListNotations.\n"
@@ -95,6 +96,9 @@ def run(ctx):
                    {"kind": "build"}, failing_input=False)
         return
     quick = ctx.tier == "quick"
+    tie_ok, tie_detail = ctx.translator_tie(
+        "xlate_set", ["-src", os.path.join(ctx.copy_repo(), "set", "set.go")], "SetGen", "Tie_C07")
+    ctx.log("translator tie:", "OK" if tie_ok else "BROKEN", "-", tie_detail.splitlines()[0])
     runs = [("corpus", ["-mode", "corpus"]),
             ("random", ["-mode", "random", "-n", 600 if quick else 30000])]
     terms, jsons, err = vlib.harness_cases(ctx, binp, runs)
@@ -107,7 +111,28 @@ def run(ctx):
                    {"kind": "coq_eval"}, failing_input=False)
         return
     mjs = multi(ctx, binp, 300 if quick else 15000)
-    for i, code in bad:
+    if not tie_ok and not ctx.violations:
+        # a broken tie with a clean correspondence run: widen the search for a failing input
+        t2, j2, err = vlib.harness_cases(ctx, binp, [("widen", ["-mode", "random", "-n", 3000, "-seed", ctx.seed + 7919])])
+        if not err:
+            b2, _, err = judge(ctx, t2, "widen")
+            for i, code in (b2 or []):
+                j, step = j2[i], None
+                if ctx.nreplay < 5:
+                    mj, mcode, mstep = minimise(ctx, binp, j)
+                    if mcode:
+                        j, code, step = mj, mcode, mstep
+                ctx.report({"case": j, "failing_step": step, "found_by": "widened search after the translator tie broke",
+                            "verdict": "observation violates the mathematical-set specification" if code == 1 else "observation differs from the Coq model"},
+                           features(j, step), failing_input=(code == 1))
+            jsons += j2
+        if not ctx.violations:
+            mjs += multi(ctx, binp, 1500, seed_offset=104729)
+    if not tie_ok and not ctx.violations:
+        ctx.report({"unchecked": "translator tie coq/ties/Tie_C07.v against SetGen.v regenerated from set/set.go",
+                    "detail": tie_detail, "search": "widened correspondence run (%d sequences, %d programs) found no failing input" % (len(jsons), len(mjs))},
+                   {"kind": "tie"}, failing_input=False)
+    for i, code in sorted(bad, key=lambda x: (x[1], x[0])):   # failing inputs (code 1) first
         j, step = jsons[i], None
         if ctx.nreplay < 5:
             mj, mcode, mstep = minimise(ctx, binp, j)
@@ -141,8 +166,9 @@ def run(ctx):
     ctx.log("correspondence: %d cases, %d operations, %d disagreement(s)" % (len(jsons), ops, len(bad)))
 
 
-def multi(ctx, binp, n):
-    terms, jsons, err = vlib.harness_cases(ctx, binp, [("multi", ["-mode", "multi", "-n", n])])
+def multi(ctx, binp, n, seed_offset=0):
+    args = ["-mode", "multi", "-n", n] + (["-seed", ctx.seed + seed_offset] if seed_offset else [])
+    terms, jsons, err = vlib.harness_cases(ctx, binp, [("multi%d" % seed_offset, args)])
     if err:
         ctx.report({"unchecked": "harness run (multi)", "detail": err}, {"kind": "harness"}, failing_input=False)
         return []
@@ -151,7 +177,7 @@ def multi(ctx, binp, n):
         ctx.report({"unchecked": "in-kernel evaluation of the correspondence (multi)", "detail": err},
                    {"kind": "coq_eval"}, failing_input=False)
         return jsons
-    for i, code in bad:
+    for i, code in sorted(bad, key=lambda x: (x[1], x[0])):   # failing inputs (code 1) first
         j = jsons[i]
         if ctx.nreplay < 5:
             j, code = minimise_multi(ctx, binp, j, code)
